@@ -10,7 +10,7 @@ META = {
  'C05': ('E-enum', 'exhaustive strings over small alphabets + complete one-edit neighbourhoods of members vs independent recognisers', '5/C05'),
  'C06': ('E-enum', 'bounded-exhaustive enumeration of Go source files from a field-shape grammar through ParseFile/WriteFile and the built CLI vs independent tag merger', '5/C06'),
  'C07': ('E-seq', 'explicit-state BFS over directory states under real CLI/library runs until closure; idempotence invariants on every transition', '5/C07'),
- 'C08': ('E-seq', 'all call histories up to a depth x cache configurations x start states vs pure-function model + cross-configuration differential', '5/C08'),
+ 'C08': ('E-seq', 'all call histories up to a depth x cache configurations x start states (cold, warmed, flushed, churned to every residue of the LRU rebuild counter) x enumerated cache Load-miss answers, vs pure-function model + cross-configuration differential', '5/C08'),
  'C09': ('E-seq', 'all operation sequences up to a depth on the real LRUCache, lock-step against a reference LRU model', '5/C09'),
  'C10': ('E-sched', 'stateless model checking: all interleavings (preemption-bounded / unbounded) of 2-3 thread harnesses on the real LRUCache under a controlled scheduler; linearizability (porcupine + brute force) and race detector on every schedule', '5/C10'),
  'C11': ('E-sched', 'stateless model checking of concurrent validation calls under a controlled scheduler with sync.Pool answers as choice points; solo-result oracle + race detector on every schedule', '5/C11'),
@@ -21,8 +21,8 @@ META = {
  'C16': ('E-enum', 'complete product of tag rules x typed/unscoped rule sets x function definitions (per-call/global/built-in) vs selection model', '5/C16'),
  'C17': ('E-enum', 'all group-id assignments x value assignments x object placements x entry points vs per-object group model', '5/C17'),
  'C18': ('E-enum', 'relational: same rule/value through every carrier, violated-rule sets compared across carriers over an enumerated rule x value space', '5/C18'),
- 'C19': ('E-enum', 'all directories (ordered tuples of file kinds) x CLI modes on the built CLI; byte-identity / isolation oracle', '5/C19'),
- 'C20': ('E-enum', 'all types from a depth-bounded type grammar x value menu; dumper output vs normalised encoding/json document', '5/C20'),
+ 'C19': ('E-enum', 'all directories (ordered tuples of 40 entry kinds incl. stale siblings) x CLI modes and mode sequences on the built CLI; byte-identity / isolation oracle against each file processed alone + independent injection model', '5/C19'),
+ 'C20': ('E-enum', 'all types from a depth-bounded type grammar x value menu; dumper output vs normalised encoding/json document; plus 2-3 concurrent dumper calls on per-execution fresh types under the controlled scheduler (solo oracle, race detector)', '5/C20'),
 }
 checks = []
 for pid in sorted(META):
@@ -47,11 +47,11 @@ na = [{'property_id': p, 'reason': 'check not built yet in this tree (work in pr
 m = {
  'version': 1,
  'setup_cmd': './setup.sh',
- 'hooks': {'guard': 'verif', 'enable': 'no guarded source exists in /repo: instrumentation (sync -> scheduling shim) is injected at build time with `go build -overlay` generated from /repo\'s current working tree by cmd/mkoverlay',
+ 'hooks': {'guard': 'verif', 'enable': 'no guarded source exists in /repo: instrumentation (sync and sync/atomic -> scheduling shims) is injected at build time with `go build -overlay` generated from /repo\'s current working tree by cmd/mkoverlay',
            'baseline_off_cmd': 'cd /repo && GOFLAGS=-mod=mod GOPROXY=off GOSUMDB=off GOTOOLCHAIN=local go test -vet=off -count=1 ./...',
            'source_commits': [], 'add_only': True},
  'engines': [
-  {'name': 'E-sched', 'path': 'shim/vsched', 'serves_properties': ['C10', 'C11', 'C12'], 'kind_free_text': 'hand-written stateless model checker for Go: cooperative controlled scheduler + DFS with iterative preemption/deviation bounding; real race detector on every schedule'},
+  {'name': 'E-sched', 'path': 'shim/vsched', 'serves_properties': ['C10', 'C11', 'C12', 'C20'], 'kind_free_text': 'hand-written stateless model checker for Go: cooperative controlled scheduler (sync.Mutex/RWMutex with writer preference, Pool, Once, Map and sync/atomic hooked through a build overlay) + DFS with iterative preemption/deviation bounding; real race detector on every schedule; one-process-per-execution fallback when process-global state survives between executions'},
   {'name': 'E-seq', 'path': 'internal/runner', 'serves_properties': ['C07', 'C08', 'C09', 'C12'], 'kind_free_text': 'explicit enumeration of all operation sequences / histories up to a depth on the real code vs reference model'},
   {'name': 'E-enum', 'path': 'internal/runner', 'serves_properties': ['C01', 'C02', 'C03', 'C04', 'C05', 'C06', 'C13', 'C14', 'C15', 'C16', 'C17', 'C18', 'C19', 'C20'], 'kind_free_text': 'bounded-exhaustive (small-scope) enumeration of inputs/programs vs reference model, sharded over worker subprocesses'},
  ],
